@@ -14,6 +14,7 @@
       the consumed numbers (±inf / NaN included); the model supplies count and consumption
     @ mv <N> <k> mean=<…> cov=<…> src=<…> names=<samples>,<features> via=matrix|tensor [ty=rat] [mname=<mean's name> cnames=<covariance's names>]
         → some shape=<s>:<k>,<f>:<N> consumed=<c> values=<…> | none consumed=<c> | panic(explicit)
+    @ api <gaussian|mvmatrix|mvtensor|error>                   → <facts>=ok … (constructors, accessors, trait impls)
     @ approx <fp|rat> <data>                                   → mean=<…> variance=<…> | panic(explicit)
     @ new matrix <meanRows> <meanCols> <covRows> <covCols>     → ok ## accessors=ok | panic(explicit)
     @ new tensor <meanLen> <covRows> <covCols>                 → ok ## accessors=ok | err(<variant>) ## payload=ok display=ok
@@ -130,6 +131,16 @@ def step (s : State) (toks : List String) : State × String :=
         if mean.length ≠ n ∨ cov.length ≠ n * n then (s, "bad-op")
         else (s, answerMv toString n k mean cov src names own)
       | _, _, _, _, _ => (s, "bad-op")
+  | ["@", "api", kind] =>
+    -- API surface: constructors store their arguments in order, accessors return them, `clone` and
+    -- `clone_from` reproduce every field, `Debug` shows each field under its own name, the
+    -- deprecated alias `map` is the density; the error type compares, displays and converts
+    (s, match kind with
+      | "gaussian" => "new=ok clone=ok clone_from=ok debug=ok map=ok"
+      | "mvmatrix" => "new+accessors=ok clone=ok clone_from=ok debug=ok"
+      | "mvtensor" => "new+accessors=ok clone=ok clone_from=ok debug=ok"
+      | "error" => "variants=ok clone=ok clone_from=ok partial_eq=ok debug=ok display=ok source=ok into_box=ok"
+      | _ => "bad-op")
   | ["@", "approx", ty, dataS] =>
     if ty = "rat" then
       match (splitComma dataS).mapM Driver.C08.parseRat with
